@@ -191,6 +191,7 @@ def run(ctx: Ctx):
                 if dn and dn.split(".")[-1] in ("lru_cache", "cache"):
                     ctx.fail("FX-MODSTATE", fi, f"@{dn}", "memoisation keyed by argument equality conflates 1, 1.0 and True", fi.node)
     ctx.ok("FX-MODSTATE", None, "types package keeps no module-level state", f"{n} summaries scanned", construct="types")
+    ctx.section(check_modmask, ctx)
 
 
 def need(ci: ClassInfo, name: str) -> FuncInfo:
@@ -408,3 +409,15 @@ def check_nested_decoding(ctx: Ctx):
         core, par = q.reversal_parity(top[0].value)
         ok = par == 1 and isinstance(core, ast.Call) and norm(core.func) == "format_outcome"
     ctx.check(ok, "OR-FLOW", fi, "measurement-order input reversed exactly once before decoding", "", "interpret_as_qtype must turn the MSB-first reading into the LSB-first list the decoders take, once", fi.node)
+
+
+def check_modmask(ctx: Ctx):
+    """exact, over the modules this property is anchored in"""
+    n = 0
+    for fi in ctx.repo.functions.values():
+        if fi.parent is not None or not any(fi.module.name.startswith(x) for x in ['qlasskit.types']):
+            continue
+        for site in q.modulo_by_mask_sites(fi.node):
+            n += 1
+            ctx.fail("SB-MODMASK", fi, f"`{norm(site)[:50]}`", f"`{norm(site)}` reduces a value with the all-ones mask as MODULUS: the largest value of that width ((1 << n) - 1) becomes 0; the modulus for n bits is 2**n (or use `& mask`)", site)
+    ctx.ok("SB-MODMASK", None, "no value is reduced modulo an all-ones mask", f"{n} sites", construct="types")
